@@ -34,8 +34,8 @@ ASSUMPTIONS = [
     "coarser/finer means all axes coarsened resp. refined by integer factors (no mixed directions in one call)",
 ]
 FLOORS = {
-    "quick": {"integral_matches_model": 3000, "history_independent": 800, "linearity": 250, "normalize_equalises": 250, "offline:same_call_same_result": 2000},
-    "thorough": {"integral_matches_model": 30000, "history_independent": 8000, "linearity": 2500, "normalize_equalises": 2500, "offline:same_call_same_result": 20000},
+    "quick": {"payload_rank_drop": 150, "integral_matches_model": 3000, "history_independent": 800, "linearity": 250, "normalize_equalises": 250, "offline:same_call_same_result": 2000},
+    "thorough": {"payload_rank_drop": 1500, "integral_matches_model": 30000, "history_independent": 8000, "linearity": 2500, "normalize_equalises": 2500, "offline:same_call_same_result": 20000},
 }
 LETTERS = ["native", "coarser", "finer", "other"]
 
@@ -247,6 +247,24 @@ def run_shard(spec_, R):
                     lambda: {**case, "position": pos, "got": res_a.tolist() if res_a.size < 5 else str(res_a.shape), "expected": exp.tolist() if exp.size < 5 else str(exp.shape)},
                     key="C03:scalar_volume_cache_stale_after_resized_call" if (stale and not good) else key, group=grp)
             last = (letter, obj, arr, res_a)
+        # the payload rank drops: after series / vector data, scalar data at the resolution of the last call
+        if last is not None and desc["payload"] != "scalar":
+            dshape_l = cache[last[0]][2]
+            arr_s = rng.standard_normal(dshape_l)
+            if desc["data_kind"] == "image":
+                hv = spec["voxel_size"]
+                obj_s = darsia.Image(arr_s.copy(), space_dim=dim, dimensions=[spec["shape"][d] * hv[d] for d in range(dim)], scalar=True)
+            else:
+                obj_s = arr_s.copy()
+            ok, res_s = R.guarded("integrate", lambda: geom.integrate(obj_s))
+            if ok:
+                exp_s, mag_s = model_integral(spec, arr_s, last[0])
+                rs = np.asarray(res_s, float)
+                rtol = 1e-6 if (array_weight and last[0] != 0) else 1e-12
+                R.check(rs.shape == exp_s.shape and bool(np.all(np.abs(rs - exp_s) <= rtol * np.maximum(mag_s, 1e-300))), "integral_matches_model",
+                        lambda: {**case, "what": "scalar data after " + desc["payload"] + " data at the same resolution", "got": rs.tolist() if rs.size < 5 else str(rs.shape),
+                                 "expected": exp_s.tolist() if exp_s.size < 5 else str(exp_s.shape)}, group=grp + "/rank_drop")
+                R.count("payload_rank_drop")
         # last call on a fresh object
         if last is not None:
             ok, g2 = R.guarded("geometry_constructible", ctor)
